@@ -113,6 +113,7 @@ func buildProperties() []Property {
 			Decides:    "no delayed continuation addresses the live clause list by a position computed at call time (the mechanism behind the wrong deletions and the slice-bounds panic); calls iterate clause copies captured eagerly; the live database is written only from code statically reachable from asserta/assertz/retract/abolish/consult, the loader and the registration API.",
 			NotDecided: "that the final database equals the sequential reference model for every history; front/end insertion order.",
 			Rules: []RuleDef{
+				{"R-ASSERT-COPY", 1, ruleAssertCopy},
 				{"R-SNAPSHOT", 2, func(c *Ctx, r *Report) { ruleSnapshot(c, r); ruleSnapshotPointers(c, r) }},
 				{"R-SLICE-OWNER", 4, ruleSliceOwner},
 				{"R-DB-WRITERS", 6, ruleStateWriters("R-DB-WRITERS", [][2]string{{"VM", "procedures"}, {"userDefined", "clauses"}},
@@ -124,6 +125,8 @@ func buildProperties() []Property {
 			Decides:    "the term kept for clause/2 and retract/1 is a closed copy (bindings applied) on every compile path; the operand types the compiler emits are the types the interpreter asserts; every emitted structure opcode is closed by exactly one pop; head and body argument compilers treat each term representation with opcodes of the same kind; unchecked assertions on struct fields hold for every value stored there; every opcode has a handler; copies keep variable sharing. The compiler and the database built-ins inspect a term's shape only after resolution and pair functor-name tests with arity.",
 			NotDecided: "that the bytecode denotes the source term (argument order, variable numbering) for every clause - a translation-validation question.",
 			Rules: []RuleDef{
+				{"R-VARS-PER-CLAUSE", 1, ruleVarsPerClause},
+				{"R-ASSERT-COPY", 1, ruleAssertCopy},
 				{"R-FUNCTOR-ARITY", 35, ruleFunctorArity},
 				{"R-RESOLVE-ALL", 25, ruleResolveAll("C10")},
 				{"R-RAW-CLOSED", 2, ruleRawClosed},
@@ -212,6 +215,7 @@ func buildProperties() []Property {
 			Decides:    "every collected instance is a renamed copy of the template taken under that solution's environment; after the nested search findall/3 and \\+/1 continue with their own outer environment (no goal binding is left behind, with R-ENV-IMMUT); copies keep variable sharing. The whole collection machinery inspects terms only after resolution.",
 			NotDecided: "free-variable computation, witness variance, partition into groups, solution order.",
 			Rules: []RuleDef{
+				{"R-VARIANT-BIJECTIVE", 1, ruleVariantBijective},
 				{"R-GROUP-ALL", 1, ruleGroupAll},
 				{"R-RESOLVE-ALL", 18, ruleResolveAll("C11")},
 				{"R-COPY-ON-COLLECT", 1, ruleCopyOnCollect},
